@@ -127,6 +127,12 @@ func (h *apiHarness) stop() {
 		h.srv.Close()
 		h.srv = nil
 	}
+	// an in-process "restart" closes the stores while goroutines of hung-up streams may still be inside GetNext
+	// (a real process exit takes them with it): let them notice the cancellation first
+	for k := 0; k < 4 && outputStream != nil; k++ {
+		outputStream.InterruptGetNext()
+		time.Sleep(30 * time.Millisecond)
+	}
 	if h.raft != nil {
 		h.raft.Shutdown().Error()
 		h.raft = nil
